@@ -586,7 +586,24 @@ pub fn media_script(c_chunk: u32, s_chunk: u32, cap: u32, max: usize) -> BoxedSt
                 })
                 .collect::<Vec<_>>()
         });
-    prop_oneof![3 => proptest::collection::vec(media(c_chunk, s_chunk, cap), 0..max), 2 => regular].boxed()
+    // items that are exact copies of the previous item or of the one before it: the same metadata
+    // twice, the same frame at the same timestamp twice (a receiver that de-duplicates, an encoder
+    // that treats "same as before" as "nothing to send", a zero delta compressed away)
+    let with_repeats = proptest::collection::vec((media(c_chunk, s_chunk, cap), any::<u8>()), 1..max.max(2)).prop_map(|v| {
+        let mut out: Vec<Media> = Vec::with_capacity(v.len());
+        for (m, sel) in v {
+            let n = out.len();
+            if sel < 90 && n >= 1 {
+                out.push(out[n - 1].clone());
+            } else if sel < 130 && n >= 2 {
+                out.push(out[n - 2].clone());
+            } else {
+                out.push(m);
+            }
+        }
+        out
+    });
+    prop_oneof![3 => proptest::collection::vec(media(c_chunk, s_chunk, cap), 0..max), 2 => regular, 2 => with_repeats].boxed()
 }
 
 pub fn scenario(thorough: bool) -> BoxedStrategy<Scenario> {
@@ -634,7 +651,7 @@ pub fn spec() -> PropSpec {
     PropSpec {
         id: "C02",
         level: "exploration",
-        rule: "scenarios: publish or play, application name (with/without trailing '/'), stream key, publish type, client and server configurations (chunk sizes from {1,2,3,7,127..129,4096,65536,2^31-2,2^31-1, 1..400, any}, windows from {0,1,2,33,50,128,2.5M,2^32-1, any}, bandwidth, onBWDone flag, tcUrl), a media script of 0..12 metadata/audio/video items, either independent or a regular cadence (one kind, constant length, constant timestamp step incl. 0xFFFFFE..0x1000001, 2^31 and backwards steps) (lengths 0, 1.., around both chunk sizes, up to 20000 quick / 70000 thorough; any u32 timestamps; droppable flags) and a delivery schedule of (direction, byte count) steps, then alternate draining with a generated piece size; sessions optionally pre-aged past 2^24 / 2^32 ms; in 35 % of scenarios a second publish or play follows on the same connection after the first was stopped. A real ClientSession and ServerSession exchange bytes; the harness accepts every request. Non-trivial = >= 1 media item and (a delivery that cuts a queued packet, or both chunk sizes non-default, or >= 2 direction switches while media is in flight); distinct = distinct scenario",
+        rule: "scenarios: publish or play, application name (with/without trailing '/'), stream key, publish type, client and server configurations (chunk sizes from {1,2,3,7,127..129,4096,65536,2^31-2,2^31-1, 1..400, any}, windows from {0,1,2,33,50,128,2.5M,2^32-1, any}, bandwidth, onBWDone flag, tcUrl), a media script of 0..12 metadata/audio/video items, either independent, or a regular cadence (one kind, constant length, constant timestamp step incl. 0xFFFFFE..0x1000001, 2^31 and backwards steps), or with exact repeats of the previous item / the one before it (lengths 0, 1.., around both chunk sizes, up to 20000 quick / 70000 thorough; any u32 timestamps; droppable flags) and a delivery schedule of (direction, byte count) steps, then alternate draining with a generated piece size; sessions optionally pre-aged past 2^24 / 2^32 ms; in 35 % of scenarios a second publish or play follows on the same connection after the first was stopped. A real ClientSession and ServerSession exchange bytes; the harness accepts every request. Non-trivial = >= 1 media item and (a delivery that cuts a queued packet, or both chunk sizes non-default, or >= 2 direction switches while media is in flight); distinct = distinct scenario",
         assumptions: vec![
             "the driver queues all outbound packets of one call, in order, before reacting to that call's events (the documented ordering)",
             "one publish or play per connection; the application accepts every request; rejection paths belong to C09/C10",
